@@ -223,7 +223,7 @@ func checkC01(P *Prog, r *Result) {
 			r.ok("C01/no-silent-exit", fname(fn), P.pos(fn.Pos()), fmt.Sprintf("each of the %d entry→return paths passes an event", len(paths)), summary...)
 		}
 	}
-	r.floor("C01/no-silent-exit", 20)
+	r.floor("C01/no-silent-exit", 18)
 
 	// (b) sink
 	P.checkSink(r)
@@ -370,16 +370,30 @@ func (P *Prog) checkSink(r *Result) {
 			default:
 				return nil
 			}
+			recvRooted := func(v ssa.Value) bool {
+				for _, rt := range P.rootsOf(v) {
+					if rt.kind == rkParam && rt.v == recvParam {
+						return true
+					}
+				}
+				return false
+			}
 			c, ok := cv(val).(*ssa.Call)
 			if !ok || callOf(c).builtin != "append" || len(c.Call.Args) < 2 || !sliceLitContains(c.Call.Args[1], errParam) {
+				// a fresh container stored into the receiver (`m = ZogIssueMap{...}; s.M = m`): updates of that
+				// very object on this path are updates of the receiver's collection
+				if st, isSt := in.(*ssa.Store); isSt && recvRooted(st.Addr) {
+					switch cv(st.Val).(type) {
+					case *ssa.MakeMap, *ssa.MakeSlice:
+						return []pathItem{{kind: "OWNED", in: in, aux: cv(st.Val)}}
+					}
+				}
 				return nil
 			}
-			for _, rt := range P.rootsOf(tgt) {
-				if rt.kind == rkParam && rt.v == recvParam {
-					return []pathItem{{kind: "APPEND-ISSUE", in: in}}
-				}
+			if recvRooted(tgt) {
+				return []pathItem{{kind: "APPEND-ISSUE", in: in}}
 			}
-			return nil
+			return []pathItem{{kind: "APPEND-ISSUE?", in: in, aux: cv(tgt)}}
 		}
 		res := P.enumPathsSpec(fn, nil, spec)
 		missing, twice := "", false
@@ -387,7 +401,19 @@ func (P *Prog) checkSink(r *Result) {
 			if p.end != "RETURN" {
 				continue
 			}
-			switch n := p.count("APPEND-ISSUE"); {
+			n := p.count("APPEND-ISSUE")
+			for _, it := range p.items {
+				if it.kind != "APPEND-ISSUE?" {
+					continue
+				}
+				for _, o := range p.items {
+					if o.kind == "OWNED" && o.aux == it.aux {
+						n++
+						break
+					}
+				}
+			}
+			switch {
 			case n == 0 && missing == "":
 				missing = p.String()
 			case n > 1:
@@ -405,7 +431,7 @@ func (P *Prog) checkSink(r *Result) {
 			r.ok("C01/sink", fname(fn), P.pos(fn.Pos()), "exactly one append of the issue to the receiver's collection on every path")
 		}
 	}
-	r.floor("C01/sink", 4)
+	r.floor("C01/sink", 2)
 }
 
 // sliceLitContains: the variadic slice passed to append holds exactly v
@@ -629,68 +655,35 @@ func isLoadOfFreeVar(v ssa.Value) bool {
 
 func (P *Prog) checkPredicateToIssue(r *Result, rule string) {
 	ws := P.predicateWrappers()
-	// which wrapper is used under the isNot guard?
-	notWrappers := map[*ssa.Function]bool{}
-	plainUnderNot := map[*ssa.Function]bool{}
-	for _, fn := range P.Funcs {
-		eachInstr(fn, func(b *ssa.BasicBlock, _ int, in ssa.Instruction) {
-			ci := callOf(in)
-			if ci == nil || ci.static == nil {
-				return
-			}
-			isW := false
-			for _, w := range ws {
-				if w.fn == ci.static {
-					isW = true
-				}
-			}
-			if !isW {
-				return
-			}
-			underNot, underPlain := false, false
-			for _, gd := range guardsOf(b) {
-				if _, f := loadOfField(cv(gd.If.Cond)); f != nil && P.roleName(f) == "isNot" {
-					if gd.True {
-						underNot = true
-					} else {
-						underPlain = true
-					}
-				}
-			}
-			if underNot {
-				notWrappers[ci.static] = true
-			} else {
-				plainUnderNot[ci.static] = true
-			}
-			_ = underPlain
-		})
-	}
+	// Each wrapper emits its issue on exactly one outcome of the predicate. The wrapper that emits on `true`
+	// is the negated one, the wrapper that emits on `false` the plain one; that the negation consumer uses the
+	// negated wrapper exactly under the Not() flag, and the plain one otherwise, is decided on the consumer's
+	// decision paths (C17's not-typestate shape rule, adopted below), wherever and however the call is written.
+	nNeg, nPlain := 0, 0
 	for _, w := range ws {
 		r.sawFunc(fname(w.closure))
-		want := "false"
-		role := "plain"
-		if notWrappers[w.fn] {
-			want = "true"
-			role = "negated (used under isNot)"
-			if plainUnderNot[w.fn] {
-				r.bad(rule, fname(w.fn), P.pos(w.fn.Pos()), "the same wrapper is used both for plain and for negated tests: one of them has the wrong polarity")
-				continue
-			}
-		}
 		switch {
 		case w.issueWhen == "?":
 			r.undecided(rule, fname(w.fn), P.pos(w.closure.Pos()), "the wrapper closure emits an issue on a path not decided by the predicate's result: "+w.detail)
-		case w.issueWhen != want:
-			r.bad(rule, fname(w.fn), P.pos(w.closure.Pos()), fmt.Sprintf("%s wrapper emits its issue when the predicate returns %s (must be %s): passing values are reported / failing values pass silently", role, w.issueWhen, want))
 		case w.addIssues != 1:
 			r.bad(rule, fname(w.fn), P.pos(w.closure.Pos()), fmt.Sprintf("wrapper closure contains %d AddIssue calls (expected exactly one)", w.addIssues))
+		case w.issueWhen == "true":
+			nNeg++
+			r.ok(rule, fname(w.fn), P.pos(w.closure.Pos()), "negated wrapper: exactly one AddIssue, executed iff predicate == true")
 		default:
-			r.ok(rule, fname(w.fn), P.pos(w.closure.Pos()), fmt.Sprintf("%s wrapper: exactly one AddIssue, executed iff predicate == %s", role, want))
+			nPlain++
+			r.ok(rule, fname(w.fn), P.pos(w.closure.Pos()), "plain wrapper: exactly one AddIssue, executed iff predicate == false")
 		}
 	}
-	if len(notWrappers) != 1 {
-		r.bad(rule, "addTest#negated-wrapper", "-", fmt.Sprintf("%d wrappers are used under the isNot guard (expected exactly one)", len(notWrappers)))
+	switch {
+	case nPlain == 0:
+		r.bad(rule, "wrappers#polarity", "-", "no wrapper emits its issue when the predicate fails: failing values pass silently")
+	case nNeg != 1:
+		r.bad(rule, "wrappers#polarity", "-", fmt.Sprintf("%d wrappers emit their issue when the predicate holds (expected exactly one, the Not() wrapper)", nNeg))
+	default:
+		r.ok(rule, "wrappers#polarity", "-", fmt.Sprintf("%d plain wrapper(s), 1 negated wrapper", nPlain))
 	}
+	shareRule(P, r, checkC17, "C17/not-typestate", func(o Obligation) bool { return strings.HasSuffix(o.Construct, "#shape") }, rule, 1)
 	r.floor(rule, 2)
 }
 
@@ -868,7 +861,7 @@ func checkC05(P *Prog, r *Result) {
 	for _, pl := range R.Pipelines {
 		P.checkSwallow(r, pl)
 	}
-	r.floor("C05/swallow-implies-catch-store", 2)
+	r.floor("C05/swallow-implies-catch-store", 1)
 
 	// no-direct-sink
 	nodeFns := map[*ssa.Function]bool{}
